@@ -101,7 +101,7 @@ pub fn verify(case: &Value, scratch: &Path, idx: usize) -> Value {
     let mut pairs: Vec<(KeyId, PublicKey)> = Vec::new();
     for pair in case["caller_keys"].as_array().map(|a| a.as_slice()).unwrap_or(&[]) {
         let id = KeyId::from_str(pair[0].as_str().unwrap());
-        let key = serde_json::from_value::<PublicKey>(pair[1].clone());
+        let key = crate::util::via_text::<PublicKey>(&pair[1]);
         match (id, key) {
             (Ok(i), Ok(k)) => pairs.push((i, k)),
             (a, b) => {
